@@ -334,6 +334,20 @@ def replay(path):
         msg = shared_oracle(PC_.unjson(p['term']), p['shape'], p['depth'], p['width'])
         print('oracle:', msg)
         return 1 if msg else 0
+    if p.get('kind') == 'configured-default-not-applied':
+        import prettyprinter as P
+        import printercheck as PC_
+        v = valgen.build(PC_.unjson(p['term']))[0]
+        factory = dict(P.get_default_config())
+        PC_.impl_pformat(v, p['cfg'])
+        P.set_default_config(**{p['key']: p['configured_default']})
+        try:
+            got, _ = PC_.impl_pformat(v, p['cfg'])
+            want, _ = PC_.impl_pformat(v, dict(p['cfg'], **{p['key']: p['configured_default']}))
+        finally:
+            P.set_default_config(**{p['key']: factory[p['key']]})
+        print('same' if got == want else 'DIFFERENT:\n%s\n---\n%s' % (got[:300], want[:300]))
+        return 0 if got == want else 1
     if p.get('kind') == 'explicit-over-default':
         import prettyprinter as P
         import printercheck as PC_
